@@ -11,8 +11,12 @@ use serde_json::json;
 const NUMBERS: &[&str] = &[
     "0", "-0.0", "1", "2", "3", "0.1", "0.2", "0.3", "0.5", "1e15", "1e16", "1e21", "1e100", "1e308", "5e-324", "9007199254740992",
     "9007199254740994", "0.3333333333333333", "1/0", "-1/0", "0/0", "-1", "10", "255", "1e14", "123456789012345", "1e-5", "0.0001",
+    // more than 14 significant digits, few of them non-zero (%.14g rounds them away)
+    "0.30000000000000004", "1.0000000000000002", "100.00000000000001", "123456789.00000001", "99999999999999.99",
 ];
-const STRINGS: &[&str] = &["\"\"", "\"a\"", "\"b\"", "\"1\"", "\"10\"", "\"9\"", "\" 1 \"", "\"0x10\"", "\"1e2\"", "\"1_0\"", "\"0b1\"", "\"abc\"", "\"\\xff\"", "\"-1\"", "\"- 1\"", "\"1 2\""];
+const STRINGS: &[&str] = &["\"\"", "\"a\"", "\"b\"", "\"1\"", "\"10\"", "\"9\"", "\" 1 \"", "\"0x10\"", "\"1e2\"", "\"1_0\"", "\"0b1\"", "\"abc\"", "\"\\xff\"", "\"-1\"", "\"- 1\"", "\"1 2\"",
+    // escapes directly followed by a digit / hex digit
+    "\"\\0101\"", "\"\\0971\"", "\"\\x411\"", "\"\\u{41}1\"", "\"a\\z  1\"", "\"\\1\\02\\0033\"", "'\\65\\066'"];
 const OPAQUE: &[&str] = &["id", "id.f", "id[1]", "id()", "...", "{}", "function() end", "id:m()", "(id())", "(...)"];
 const SMALL: &[&str] = &["nil", "true", "false", "0", "1", "0.1", "\"a\"", "\"1\"", "1/0", "id", "id()", "...", "{}"];
 const BINOPS: &[&str] = &["+", "-", "*", "/", "//", "%", "^", "..", "==", "~=", "<", "<=", ">", ">=", "and", "or"];
@@ -204,8 +208,12 @@ fn run_case(expr_text: &str) -> Option<Case> {
     let program = format!("local function __f(...) return {} end\nreturn __f(7, 8)", expr_text);
     let count_program = format!("local function __f(...) return select('#', {}) end\nreturn __f(7, 8)", expr_text);
     for env in envs {
-        // value claim: acceptable if any dialect/number-format combination produces it or raises an error
+        // value claim: it must hold on both runtimes - Lua 5.1 (when the text is plain Lua) and Luau (whose number
+        // formatting is modelled by two candidate formats, either of which is accepted); an error excuses the claim
         let mut accepted = !definite;
+        let mut accepted_lua51 = !definite;
+        let mut judged_lua51 = false;
+        let mut judged_luau = false;
         let mut any_judged = false;
         let mut renders = Vec::new();
         let mut effect_log: Option<Vec<String>> = None;
@@ -222,8 +230,16 @@ fn run_case(expr_text: &str) -> Option<Case> {
                 Outcome::Returned(r) => {
                     any_judged = true;
                     let first = first_value(r);
-                    if lua_value_matches(&value, &first) {
-                        accepted = true;
+                    if mode == Mode::Lua51 {
+                        judged_lua51 = true;
+                        if lua_value_matches(&value, &first) {
+                            accepted_lua51 = true;
+                        }
+                    } else {
+                        judged_luau = true;
+                        if lua_value_matches(&value, &first) {
+                            accepted = true;
+                        }
                     }
                     renders.push(format!("{:?}/{:?}: {}", mode, fmt, first));
                     if effect_log.is_none() {
@@ -232,7 +248,13 @@ fn run_case(expr_text: &str) -> Option<Case> {
                 }
                 Outcome::Error(_) => {
                     any_judged = true;
-                    accepted = true;
+                    if mode == Mode::Lua51 {
+                        judged_lua51 = true;
+                        accepted_lua51 = true;
+                    } else {
+                        judged_luau = true;
+                        accepted = true;
+                    }
                     case.errors_excused += 1;
                     if effect_log.is_none() {
                         effect_log = Some(obs.log.clone());
@@ -242,7 +264,7 @@ fn run_case(expr_text: &str) -> Option<Case> {
                 _ => {}
             }
         }
-        if any_judged && !accepted {
+        if any_judged && ((judged_luau && !accepted) || (judged_lua51 && !accepted_lua51)) {
             case.violations.push(Violation {
                 finding: classify_value(expr_text, &value, &renders),
                 summary: format!(
